@@ -110,6 +110,7 @@ func (a *authCtx) ungatedEffects(p *an.Prog, fn *ssa.Function, gates []ssa.CallI
 }
 
 func runC04(p *an.Prog, r *an.Run, tier string) {
+	checkSurfaceClosed(p, r)
 	a := buildAuth(p)
 	r.Floor("signed-endpoints", len(a.endpoints), 7)
 	r.Floor("verify-wrappers", len(a.wrappers), 2)
@@ -1442,6 +1443,7 @@ func checkNonceKeptOnRefusal(p *an.Prog, r *an.Run) {
 }
 
 func runC06(p *an.Prog, r *an.Run, tier string) {
+	checkSurfaceClosed(p, r)
 	a := buildAuth(p)
 	r.Floor("signed-endpoints", len(a.endpoints), 7)
 	r.Floor("verify-wrappers", len(a.wrappers), 2)
@@ -1453,6 +1455,57 @@ func runC06(p *an.Prog, r *an.Run, tier string) {
 	checkNonceStores(p, r)
 	// what a refused request carried does not live on in the next request's parameters
 	checkFreshParams(p, r)
+	// every signature check of a request comes before its first effect: where an endpoint (or a function it calls)
+	// verifies a second signature — the payout wallet's, say — no store write or registry update can precede that
+	// check on any path, or a request refused by it has already registered a node, a connection, a nonce
+	{
+		writeNames := map[string]bool{"AddNodeBalance": true, "AddAccountBalance": true, "AddAccountNode": true, "SetNode": true, "UpdateNodePeers": true}
+		var lb []string
+		nEp := 0
+		for _, ep := range a.endpoints {
+			nEp++
+			fns := regionFuncs(p, ep.Fn)
+			hasGate := map[*ssa.Function]bool{}
+			for _, f := range fns {
+				if len(a.gateCalls(f)) > 0 && !inFuncs(f, a.wrappers) {
+					hasGate[f] = true
+				}
+			}
+			for _, f := range fns {
+				if inFuncs(f, a.wrappers) {
+					continue
+				}
+				isPoint := func(x ssa.Instruction) bool {
+					c, ok := x.(ssa.CallInstruction)
+					if !ok {
+						return false
+					}
+					if callee := c.Common().StaticCallee(); callee != nil {
+						if inFuncs(callee, a.wrappers) || (hasGate[callee] && callee != ep.Fn) {
+							return true
+						}
+					}
+					return an.IsFunc(an.CallObj(c), pkgRequest, "Verify")
+				}
+				an.AllInstrs(f, func(in ssa.Instruction) {
+					isEffect := false
+					if c, ok := in.(ssa.CallInstruction); ok && isStoreMethod(an.CallObj(c)) && writeNames[an.CallObj(c).Name()] {
+						isEffect = true
+					}
+					if mu, ok := in.(*ssa.MapUpdate); ok && (memMapField(mu.Map) == "remoteHosts" || memMapField(mu.Map) == "remoteNodeLookup") {
+						isEffect = true
+					}
+					if !isEffect {
+						return
+					}
+					if hit := an.PathAvoiding(f, in, nil, isPoint, nil); hit != nil {
+						lb = append(lb, an.FuncName(f)+" (serving "+an.FuncName(ep.Fn)+"): the signature check at "+p.Pos(hit.Pos())+" comes after the effect at "+p.Pos(in.Pos())+": a request it refuses has already changed the pool")
+					}
+				})
+			}
+		}
+		r.Check(len(lb) == 0 && nEp > 0, "effects-after-verify", "every-check-first", token.NoPos, "no signature check of a request follows one of its effects", "%s", strings.Join(dedup(lb), "; "))
+	}
 	// an authentication refusal is issued by the verify wrappers only, i.e. before the nonce is stored: an endpoint
 	// that answers VerifyFailedError on its own does so after its verify call has succeeded and consumed the nonce — the
 	// request is refused as unauthenticated and yet the owner's next, smaller nonce is turned away
